@@ -76,7 +76,12 @@ def _pick_spec(rng, kinds, cols, n, want):
         return ["n", j] if rng.random() < 0.75 else ["c", j]
     k = rng.choice([w for w in want])
     pool = KPOOLS.get(k) or DPOOLS[k]
-    return ["v", rand_col(rng, n, pool, rng.choice([0, .2, .5]))]
+    spec = ["v", rand_col(rng, n, pool, rng.choice([0, .2, .5]))]
+    if rng.random() < 0.4:
+        # the external vector carries a NAME - often the name of a table column (t.x.fillna(0) keeps the name "x"):
+        # vectors are told apart by what they hold, not by what they are called
+        spec.append(rng.choice(NAMES[:max(1, len(cols))]))
+    return spec
 
 
 def random_call(rng, op, nmax=10):
@@ -292,7 +297,7 @@ def _call_on(t, names, pre, case, method, log, obs=None):
             return names[spec[1]], pre[spec[1]]
         if spec[0] == "c":
             return t[names[spec[1]]], pre[spec[1]]
-        vec = Vector([V.dec(x) for x in spec[1]])
+        vec = Vector([V.dec(x) for x in spec[1]], name=(spec[2] if len(spec) > 2 else None))
         return vec, [V.enc(x) for x in vec._underlying]
 
     res = {"over": [], "args": {}, "apply": []}
